@@ -37,6 +37,7 @@ CONSTANTS Sims,         \* simulations that can be in a specification
           Foreign,      \* a simulation with other inputs whose record may sit in the file
           MaxTarget, SaveFreqs, Compressed, AtomicSave,
           MaxRuns, MaxKills, MaxInterrupts,
+          TailSave,     \* TRUE: the end of _run saves memory that never reached a file (fix 0b4ee39)
           RepairPartial,\* TRUE: a trial starts by discarding the entries a previously
                         \* interrupted trial left beyond n_runs (the fix); FALSE: the snapshot
           Planned       \* TRUE: every process run carries one fault plan chosen
@@ -92,7 +93,10 @@ SpecSeq == SelectSeq(SimOrder, LAMBDA s : s \in spec)
 NoPlan == [kind |-> "none", at |-> "none", n |-> 0]
 TrialPCs == {"ee", "succ", "cs", "incr"}
 SavePCs == {"open", "write", "close", "rename", "written"}
-FaultPCs == TrialPCs \cup SavePCs   \* points where the harness can stop the real code
+\* "save" = save_results has been entered but its try block has not: an
+\* interrupt there is NOT caught by save_results (no retry), the run pauses
+\* with the trials of this iteration in memory only
+FaultPCs == TrialPCs \cup SavePCs \cup {"save"}  \* points where the harness can stop the real code
 Phase(p) == CASE p = "ee" -> 0 [] p = "succ" -> 1 [] p = "cs" -> 2 [] p = "incr" -> 3
 MaxSteps == 4 * Cardinality(Sims) * MaxTarget
 PlanSet ==
@@ -102,8 +106,9 @@ PlanSet ==
   \cup { [kind |-> k, at |-> p, n |-> m] : k \in {"kill", "interrupt"}, p \in SavePCs,
             m \in 1..(2 * MaxTarget + 1) }
   \cup { [kind |-> "kill", at |-> "load", n |-> 0] }
+  \cup { [kind |-> "interrupt", at |-> "save", n |-> m] : m \in 0..(2 * MaxTarget) }
 
-Counter == IF pc \in TrialPCs THEN nsteps ELSE IF pc \in SavePCs THEN nsaves ELSE 0
+Counter == IF pc \in TrialPCs THEN nsteps ELSE IF pc \in SavePCs \cup {"save"} THEN nsaves ELSE 0
 FaultDue == Planned /\ plan.kind # "none" /\ pc = plan.at /\ Counter = plan.n
 
 Init ==
@@ -175,14 +180,24 @@ RECURSIVE NextCursorIn(_, _)
 NextCursorIn(m, c) == IF c > Len(SpecSeq) THEN 0
                       ELSE IF m[SpecSeq[c]].n < target THEN c ELSE NextCursorIn(m, c + 1)
 
+\* the end of _run: "if nothing was left to run and some simulation holds
+\* trials: save_results()" - trials that an interrupted run left in memory
+\* without saving them reach the file even when nothing is left to run
+\* (fix 0b4ee39; without it ExactCounts fails: Batch_notail_plain.cfg.  TLC
+\* refuted a first version of the fix that only looked whether the file
+\* exists: the file may exist and hold other simulations' records only.)
+TailSaveDue == TailSave /\ \E s \in spec : mem[s].n > 0
+
 ComputeMin ==
   /\ pc = "min"
   /\ iTrial' = MinN
   /\ IF MinN >= target
-     THEN /\ pc' = "idle" /\ outcome' = "done" /\ cursor' = 0
-          /\ hist' = Append(hist, EndRecord("done", disk, mem))
-     ELSE /\ pc' = "ee" /\ cursor' = NextCursorIn(mem, 1) /\ UNCHANGED <<outcome, hist>>
-  /\ UNCHANGED <<disk, tmp, mem, spec, target, saveFreq, pending, snapshot,
+     THEN IF TailSaveDue
+          THEN /\ pc' = "save" /\ pending' = 1 /\ cursor' = 0 /\ UNCHANGED <<outcome, hist>>
+          ELSE /\ pc' = "idle" /\ outcome' = "done" /\ cursor' = 0 /\ UNCHANGED pending
+               /\ hist' = Append(hist, EndRecord("done", disk, mem))
+     ELSE /\ pc' = "ee" /\ cursor' = NextCursorIn(mem, 1) /\ UNCHANGED <<outcome, hist, pending>>
+  /\ UNCHANGED <<disk, tmp, mem, spec, target, saveFreq, snapshot,
                  retrying, twice, runNo, kills, interrupts, lastGood,
                  lastTarget, lastSpec, freshRun, nsteps, nsaves, plan>>
 
@@ -342,7 +357,7 @@ InSave == pc \in {"save", "begin", "open", "write", "close", "rename", "written"
 Interrupt ==
   /\ pc \in FaultPCs
   /\ interrupts' = interrupts + 1
-  /\ IF InSave /\ ~retrying
+  /\ IF InSave /\ pc # "save" /\ ~retrying
      THEN /\ retrying' = TRUE /\ pc' = "save" /\ UNCHANGED <<outcome, hist>>
      ELSE /\ pc' = "idle" /\ outcome' = "paused" /\ retrying' = FALSE
           /\ hist' = Append(hist, EndRecord("paused", disk, mem))
